@@ -431,7 +431,10 @@ def pool_cases(ctx):
         # the pool splits the *targets* into batches: restricted target
         # sets (the interregional use) must be honoured as in serial mode
         variants = [{}, {"targets": tgt}, {"sources": src, "targets": tgt},
-                    {"sources": src}]
+                    {"sources": src},
+                    # every option of the public method, distributed or not
+                    {"nsi": False}, {"nsi": False, "sources": src,
+                                     "targets": tgt}]
         d = tempfile.mkdtemp(dir=os.environ.get("PVM_TMP", "."))
         script = os.path.join(d, "pool_case.py")
         with open(script, "w") as fh:
